@@ -27,7 +27,7 @@ type spec struct {
 	rev     bool   // reverse transfer that must be unaffected
 }
 
-var disruptors = []string{"none", "closeWriteEarly", "closeRead", "closeL", "closeR", "rdlPast", "rdlFuture", "rdlPastThenZero", "wdlPast", "wdlFuture", "rdlFutureNoWriter", "rdlPastNoWriter", "wdlFutureNoReader", "closeWriteNoWriter", "closeReadNoReader"}
+var disruptors = []string{"none", "closeWriteEarly", "closeRead", "closeL", "closeR", "rdlPast", "rdlFuture", "rdlPastThenZero", "wdlPast", "wdlFuture", "rdlFutureNoWriter", "rdlPastNoWriter", "wdlFutureNoReader", "closeWriteNoWriter", "closeReadNoReader", "sdlPast", "sdlFuture", "crSdlPastNoReader", "crSdlFutureNoReader", "crSdlPastZeroThenRead"}
 
 func (s spec) String() string {
 	var w []string
@@ -93,6 +93,13 @@ func scenario(param string) vsched.Scenario {
 		body := func() {
 			pl, pr := netio.NewPipe()
 			var wwg, rwg, dwg vsched.Group
+			if sp.dis == "crSdlPastZeroThenRead" {
+				// an expired combined deadline on a read-closed end is cleared again before any
+				// write is issued: the write direction must then work normally
+				pl.CloseRead()
+				pl.SetDeadline(time.Unix(1, 0))
+				pl.SetDeadline(time.Time{})
+			}
 			if !noWriter {
 				for i, n := range sp.writers {
 					data := make([]byte, n)
@@ -198,6 +205,17 @@ func scenario(param string) vsched.Scenario {
 				dwg.Go(func() { sdlErr = pl.SetWriteDeadline(past) })
 			case "wdlFuture", "wdlFutureNoReader":
 				dwg.Go(func() { sdlErr = pl.SetWriteDeadline(future) })
+			case "sdlPast":
+				dwg.Go(func() { sdlErr = pl.SetDeadline(past) })
+			case "sdlFuture":
+				dwg.Go(func() { sdlErr = pl.SetDeadline(future) })
+			case "crSdlPastNoReader":
+				// the writing end has closed its own read side; the combined deadline must still bound its writes
+				dwg.Go(func() { pl.CloseRead(); pl.SetDeadline(past) })
+			case "crSdlFutureNoReader":
+				dwg.Go(func() { pl.CloseRead(); pl.SetDeadline(future) })
+			case "crSdlPastZeroThenRead":
+				// done before the writers start, see above
 			default:
 				panic("unknown disruptor " + sp.dis)
 			}
@@ -256,7 +274,7 @@ func scenario(param string) vsched.Scenario {
 				}
 				counts[wi]++
 			}
-			writeErrOK := sp.dis == "closeWriteEarly" || sp.dis == "closeRead" || sp.dis == "closeL" || sp.dis == "closeR" || strings.HasPrefix(sp.dis, "wdl") || sp.dis == "closeReadNoReader"
+			writeErrOK := strings.HasPrefix(sp.dis, "sdl") || strings.HasPrefix(sp.dis, "crSdl") && sp.dis != "crSdlPastZeroThenRead" || sp.dis == "closeWriteEarly" || sp.dis == "closeRead" || sp.dis == "closeL" || sp.dis == "closeR" || strings.HasPrefix(sp.dis, "wdl") || sp.dis == "closeReadNoReader"
 			for i, r := range wr {
 				if noWriter {
 					break
@@ -279,7 +297,7 @@ func scenario(param string) vsched.Scenario {
 				if r.err != nil && !writeErrOK {
 					return obs, fmt.Sprintf("writer %d: unexpected error %v", i, r.err)
 				}
-				if r.err != nil && strings.HasPrefix(sp.dis, "wdl") && !isTimeout(r.err) {
+				if r.err != nil && (strings.HasPrefix(sp.dis, "wdl") || strings.HasPrefix(sp.dis, "sdl")) && !isTimeout(r.err) {
 					return obs, fmt.Sprintf("writer %d: error %v is not a timeout", i, r.err)
 				}
 			}
@@ -309,7 +327,7 @@ func scenario(param string) vsched.Scenario {
 				// the deadline may be set after the stream ended only if main closed first; main closes after dwg.Wait, so a timeout or EOF-first is possible only when the reader started late
 				// not a violation: reader may start after deadline was set and cleared? it is never cleared here, so the reader must time out at least once unless it began after CloseWrite
 			}
-			if sp.dis == "none" || strings.HasPrefix(sp.dis, "rdl") {
+			if sp.dis == "none" || strings.HasPrefix(sp.dis, "rdl") || sp.dis == "crSdlPastZeroThenRead" {
 				for i, r := range wr {
 					if !noWriter && (r.err != nil || r.n != sp.writers[i]) {
 						return obs, fmt.Sprintf("writer %d: incomplete write %d/%d err=%v though nothing closed or limited the write side", i, r.n, sp.writers[i], r.err)
@@ -370,7 +388,8 @@ func family(c *harness.Check) []spec {
 						}
 					}
 					revs := []bool{false}
-					if len(ws) == 1 && rb == rbufs[0] && !wt {
+					if len(ws) == 1 && rb == rbufs[0] && !wt && !strings.HasPrefix(d, "sdl") && !strings.HasPrefix(d, "crSdl") {
+						// (the combined deadline and CloseRead on the writing end act on the reverse direction too)
 						revs = []bool{false, true}
 					}
 					for _, rev := range revs {
